@@ -27,7 +27,8 @@ check("C12", "exploration",
        dict(world="lists", mode=112, variants={"rel": 1.0}, quick=12, thorough=400)],
       RULE_SEQ, ["src/dlist.c", "include/cstl/dlist.h"],
       required_probes=["d_reverse_len0to5", "d_reverse_odd", "d_reverse_even", "d_swap_with_empty", "d_foreach_self_remove",
-                       "d_foreach_cancel", "d_concat_empty_src", "d_concat_empty_dst", "d_pop_empty", "d_find_absent", "d_swap_different_offsets", "comparator_reenters_library", "huge_sort", "huge_sort_2^20"])
+                       "d_foreach_cancel", "d_concat_empty_src", "d_concat_empty_dst", "d_pop_empty", "d_find_absent", "d_swap_different_offsets", "comparator_reenters_library", "huge_sort", "huge_sort_2^20", "d_find_by_bare_key"],
+      assumptions=["find hands the comparison function (sought object, element) - as every find in the library does; half of the finds search by a bare key object, the way callers avoid building a dummy element, and the comparison function checks which argument is which"])
 check("C13", "exploration",
       [dict(world="lists", mode=13, variants=V_SEQ, quick=80000, thorough=4000000),
        dict(world="lists", mode=113, variants={"rel": 1.0}, quick=12, thorough=400)],
@@ -126,18 +127,21 @@ check("C04", "exploration",
       required_probes=["foreach_mid_rehash", "foreach_grow_pending", "foreach_const_mid_rehash", "foreach_const_grow_pending", "clear_mid_rehash",
                        "clear_grow_pending", "foreach_erase_and_free", "foreach_cancel", "foreach_const_cancel", "reuse_after_clear", "clear"])
 check("C19", "exploration",
-      [dict(world="hash", mode=19, variants=V_HASH, quick=80000, thorough=1500000)],
+      [dict(world="hash", mode=19, variants=V_HASH, quick=80000, thorough=1500000),
+       dict(world="hash", mode=19, variants={"work": 1.0}, quick=30000, thorough=600000)],
       RULE_HASH, ["src/hash.c", "include/cstl/hash.h"], stubs=HASH_STUBS,
       required_probes=["resize_while_pending", "resize_grow", "resize_shrink", "resize_same_size_new_fn", "resize_back_while_pending",
-                       "c19_rehash_completed_by_keyed_ops"],
-      assumptions=["completion and 'pending' are observed black-box through the number of hash-function consultations of one lookup under checkpoint/restore",
+                       "c19_rehash_completed_by_keyed_ops", "c19_work_metered"],
+      assumptions=["'no single operation does work proportional to the whole table' is decided in amortised form by a work meter: in the 'work' build variant the library is compiled with -fsanitize-coverage=trace-pc and the harness counts the basic blocks of library code each keyed operation executes; since the resize, k operations may have executed at most k*(100+80*(longest chain+1)) + 12*(buckets in force) blocks (measured on the pinned tree with gcc 12 -O2: < 40 per chain element and < 2 per bucket). The pinned sweep may legitimately skip many already-clean buckets in one operation, each of them once per rehash, so a per-operation bound on bucket visits would be unsound",
+                   "completion and 'pending' are observed black-box through the number of hash-function consultations of one lookup under checkpoint/restore",
                    "the three-buckets-per-operation clause is checked through a call-count bound (8 + 6*(longest chain+1)), not by identifying source buckets"])
 check("C17", "fault_enumeration",
-      [dict(world="hash", mode=17, variants={"rel": 0.5, "asan": 0.5}, quick=60000, thorough=1300000)],
+      [dict(world="hash", mode=17, variants={"rel": 0.5, "asan": 0.5}, quick=60000, thorough=1300000),
+       dict(world="hash", mode=117, variants={"rel": 1.0}, quick=256, thorough=4096)],
       RULE_HASH + "; in this mode a fault 'the caller's hash function returns m, m+1 or SIZE_MAX on its j-th call within this operation' rides on a fraction of the operations",
       ["src/hash.c", "include/cstl/hash.h"], stubs=HASH_STUBS,
-      required_probes=["c17_bad_value_consumed", "c17_bad_at_call_1", "c17_bad_at_call_2", "c17_bad_at_call_3plus", "c17_range_samples"],
-      assumptions=["the range clause for cstl_hash_div/cstl_hash_mul is SAMPLED (boundary and random keys and table sizes), not decided: exhaustive enumeration of the float grid is outside this technique"])
+      required_probes=["c17_bad_value_consumed", "c17_bad_at_call_1", "c17_bad_at_call_2", "c17_bad_at_call_3plus", "c17_range_samples", "c17_range_scan_keys"] + ["c17_scan_slices_%d-%d" % (s, s + 31) for s in range(0, 256, 32)],
+      assumptions=["the range clause for cstl_hash_div/cstl_hash_mul: every key below 2^32 is swept against two table sizes in the quick tier (32 in the thorough tier), the same slices shifted above 2^32 and mirrored from the top of the key space are sampled 1 in 16, everything else (other table sizes, 64-bit keys) is SAMPLED at boundary, Fibonacci and random values - not decided. The sweep is plain enumeration of a pure function's inputs, not simulation; it is here because isolated failing keys (three below 2^32 in one seeded change) are invisible to sampling"])
 
 mtext("C03",
       "Seeded histories of insert/find/erase/resize (grow, shrink, new function, while pending)/rehash/shrink_to_fit/swap with the incremental rehash running as background work: "
@@ -164,7 +168,7 @@ mtext("C19",
 mtext("C17",
       "Fail-stop clause by fault injection: the harness hash function returns m, m+1 or SIZE_MAX on its j-th call inside insert/find/erase/resize/rehash/shrink_to_fit/foreach (so under the current geometry, the pending geometry, "
       "and while relocating chains); the operation must abort, and a byte-for-byte snapshot taken at the bad return (table object, bucket array, elements) must be unchanged at the abort; ASan variant for out-of-bounds reads. "
-      "Range clause of the built-ins: sampled at boundary and random (k, m), and monitored in every hash run -- not decided.",
+      "Range clause of the built-ins: every key below 2^32 swept against a few table sizes (256 runs of 2^24 keys each), otherwise sampled at boundary, Fibonacci and random (k, m), and monitored in every hash run -- not decided.",
       "trusted: snapshot comparison, abort trap; range clause only sampled",
       "deterministic simulation with fault injection: misbehaving hash callback at chosen call ordinals, fail-stop + no-write oracle",
       "DESIGN.md 4.C17")
@@ -173,7 +177,9 @@ check("C08", "exploration",
       [dict(world="map", mode=8, variants={"rel": 0.8, "asan": 0.2}, quick=60000, thorough=3600000)],
       RULE_SEQ + "; a quarter of the runs attach an allocation failure to some inserts",
       ["src/map.c", "src/rbtree.c", "src/bintree.c", "include/cstl/map.h"],
-      required_probes=["insert_new", "insert_existing", "alloc_fail_fired", "erase_present", "erase_absent", "erase_iterator", "find_present", "find_absent", "map_clear", "comparator_consults_another_map"])
+      required_probes=["insert_new", "insert_existing", "alloc_fail_fired", "erase_present", "erase_absent", "erase_iterator", "find_present", "find_absent", "map_clear", "comparator_consults_another_map"],
+      assumptions=["erase by iterator is taken to be a pure unlink of the entry the iterator designates (as documented: no condition on the key): in a fraction of the runs the caller has already scrubbed the key object when it calls cstl_map_erase_iterator, and the entry must still go",
+                   "comparison results are meaningful by sign only; the harness returns magnitudes from 1 to INT_MAX"])
 mtext("C08",
       "Seeded histories of insert (new key / existing key value carried by a different key object), find, erase by key, erase by iterator and clear against a dict model; "
       "return codes and iterator contents are compared exactly (stored pointers, end iterator), every map node is a sim-heap block so 'one node per entry, freed exactly once, nothing left after clear' "
@@ -186,11 +192,14 @@ mtext("C08",
 ALLOC_STUBS = ["realloc placement policy (always move / in place when shrinking / in place when it fits) and a finite heap budget, both from the plan"]
 RULE_ALLOC = ("one evaluation = one seeded plan executed against the real library with the reference model and the sim-heap block table (128-bit size arithmetic) checked after every operation; "
               "allocator faults ride on the operation they hit; at most one abort-provoking operation per run, placed last; distinct = distinct plan hash; non-trivial = the container held >= 2 elements at some point")
+GIANT = "a thorough-tier-only batch of two runs uses real memory on a grand scale (a vector resized across 2^32 one-byte elements with constructor and destructor, a string of more than 2^31 characters): it needs 4-8 GiB and about a minute, and is skipped (evidence says so) when the allocator cannot provide that"
 check("C09", "exploration",
-      [dict(world="vector", mode=9, variants=V_ALLOC, quick=80000, thorough=1500000)],
+      [dict(world="vector", mode=9, variants=V_ALLOC, quick=80000, thorough=1500000),
+       dict(world="vector", mode=109, variants={"rel": 1.0}, quick=0, thorough=2, min_mem_gib=24)],
       RULE_ALLOC, ["src/vector.c", "include/cstl/vector.h", "src/array.c (sort/reverse)"], stubs=ALLOC_STUBS,
       required_probes=["alloc_fail_fired", "enomem_over_budget", "byte_count_unrepresentable", "realloc_moved", "realloc_inplace", "reserve_unsatisfied",
-                       "resize_must_abort", "at_out_of_range", "growth_from_null", "shrink_to_zero", "swap", "sort", "reverse", "clear"])
+                       "resize_must_abort", "at_out_of_range", "growth_from_null", "shrink_to_zero", "swap", "sort", "reverse", "clear"],
+      assumptions=[GIANT])
 mtext("C09",
       "Seeded histories of resize/reserve/shrink_to_fit/clear/swap/sort/reverse/at on 1-2 vectors (element sizes 1,2,4,8,3,5,7,12,24,64; with/without constructor and destructor) with sizes from small values, "
       "size/capacity +-1, the heap-budget boundary, SIZE_MAX, SIZE_MAX/es and neighbours. After every operation: capacity >= size, the data pointer is the start of a live sim-heap block of at least (capacity+1)*es bytes (128-bit), "
@@ -201,11 +210,13 @@ mtext("C09",
       "DESIGN.md 4.C09")
 
 check("C10", "exploration",
-      [dict(world="string", mode=10, variants=V_ALLOC, quick=80000, thorough=8000000)],
+      [dict(world="string", mode=10, variants=V_ALLOC, quick=80000, thorough=8000000),
+       dict(world="string", mode=110, variants={"rel": 1.0}, quick=0, thorough=2, min_mem_gib=12)],
       RULE_ALLOC + "; narrow and wide instantiations, 2-3 objects each, alphabet {a,b,c,NUL}",
       ["src/_string.c", "src/string.c", "include/cstl/_string.h", "include/cstl/string.h", "src/vector.c"], stubs=ALLOC_STUBS,
       required_probes=["count_clamped", "pos_plus_count_wraps", "length_unrepresentable", "growth_abort", "insert_bad_pos_abort", "erase_substr_bad_pos_abort",
-                       "find_bad_pos_abort", "at_out_of_range_abort", "reserve_unsatisfied", "alloc_fail_fired", "find_ch", "find_str", "compare", "swap", "clear"])
+                       "find_bad_pos_abort", "at_out_of_range_abort", "reserve_unsatisfied", "alloc_fail_fired", "find_ch", "find_str", "compare", "swap", "clear"],
+      assumptions=[GIANT])
 mtext("C10",
       "Seeded edit histories (set, insert_ch/str/str_n/object, append*, erase, substr, resize, reserve, swap, clear) on narrow AND wide strings against a wchar_t reference string; after every operation size, every at(i), "
       "str() and the terminator are compared, and the storage block must cover capacity and size+1 characters (128-bit). Positions/counts come from {0, in range, size-1, size, size+1, SIZE_MAX and neighbours, values whose sum with the position wraps}. "
@@ -270,7 +281,8 @@ mtext("C06",
 
 check("C11", "exploration",
       [dict(world="sort", mode=11, variants={"rel": 0.7, "asan": 0.3}, quick=60000, thorough=5000000),
-       dict(world="vector", mode=11, variants={"rel": 0.5, "asan": 0.5}, quick=30000, thorough=1500000)],
+       dict(world="vector", mode=11, variants={"rel": 0.5, "asan": 0.5}, quick=30000, thorough=1500000),
+       dict(world="sort", mode=111, variants={"rel": 0.6, "asan": 0.4}, quick=200, thorough=6000)],
       "one evaluation = one seeded plan: 1-3 rounds of {fill a raw array (patterns: random over 1..3000 values, sorted, reversed, constant, two-valued, organ-pipe, saw-tooth; lengths 0..8 / 0..64 / 0..4096), linear finds, optional reverse, "
       "1-2 sorts with a seeded selector (four named algorithms and four out-of-range values) and either cstl_swap or a checking swap callback, binary searches and finds on the result}; rand() is the simulator's (uniform, or bounded adversarial streaks of pivot-last values); "
       "distinct = distinct plan hash; non-trivial = the last array had >= 2 elements",
